@@ -319,6 +319,7 @@ func senGen(args []string) {
 	shp := fs.String("shapes", "", "ndjson of TLC-enumerated tree shapes")
 	pred := fs.String("pred", "", "ndjson of strings the SenText design check predicts not to survive")
 	tbl := fs.String("tables", "", "ndjson of TLC-enumerated table shapes (rows x keys, present/absent)")
+	het := fs.String("hetero", "", "ndjson of TLC-enumerated column profiles (cell kind per row)")
 	fs.Parse(args)
 	quick := *tier != "thorough"
 	r := rand.New(rand.NewSource(seed()))
@@ -433,6 +434,10 @@ func senGen(args []string) {
 	// tables for the aligned layout of pretty.SEN / WriteSEN (quoted and bare keys mixed, missing columns)
 	for i, tc := range tableCases(*tbl, quick) {
 		emit(tc.tree, sopts(i%16), tc.p, "table")
+	}
+	// aligned tables with heterogeneous columns (array / map / scalar / empty / nested / missing cells in one column)
+	for i, tc := range heteroCases(*het, quick) {
+		emit(tc.tree, sopts(i%16), tc.p, "hetero")
 	}
 	// (4) numbers
 	for _, i := range append([]int64{0}, intLeaves...) {
